@@ -46,7 +46,8 @@ def _delivery(ch):
 
 def generate(seed, index, tier):
     ch = core.Chooser(seed)
-    doc = gd.gen_doc(ch, max_elems=ch.int(3, 12), max_depth=3)
+    heavy = index % 5 == 0
+    doc = gd.gen_doc(ch, max_elems=ch.int(3, 12), max_depth=3, use_heavy=heavy)
     st = index % 24
     case = {"faults": []}
     if st == 23:
@@ -54,6 +55,8 @@ def generate(seed, index, tier):
         nf = 0
     else:
         bias = BIASES[st % 12]
+        if heavy and ch.coin(0.6):
+            bias = ch.choice(["in-used", "in-used", "use", "used"])
         nf = 1 if st < 12 else ch.int(2, 3)
     if nf:
         case["faults"] = gd.apply_faults(ch, doc, nf, bias)
